@@ -49,11 +49,23 @@ def core_rule_need(cond, anchor):
         raise core.AnalysisError("C01", anchor, "anchor missing")
 
 
+def reachable_calling_forms(pm: PyModel):
+    """members CallingForm.method_default can return (the only forms auto-generated samples use)"""
+    fi = pm.func("gapic.samplegen_utils.types.CallingForm.method_default")
+    out = []
+    for n in ast.walk(fi.node):
+        if isinstance(n, ast.Attribute) and isinstance(n.value, ast.Name) and n.value.id == "cls" and n.attr not in out:
+            out.append(n.attr)
+    return out
+
+
 def sample_profiles(pm: PyModel):
     forms = calling_forms(pm)
     enum = SymDict("calling_form_enum", {f: "CF." + f for f in forms})
+    reach = reachable_calling_forms(pm)
+    core_rule_need(len(reach) >= 5 and set(reach) <= set(forms), "CallingForm.method_default return values")
     profiles = []
-    for f in forms:
+    for f in reach:
         for transport in ("grpc", "grpc-async", "rest"):
             for resp in ([{"print": ["%s", "$resp"]}], []):
                 if not resp and f in ("RequestPaged", "RequestPagedAll", "LongRunningRequestPromise"):
@@ -322,7 +334,7 @@ def run(report: core.Report):
     r1 = report.rule("C01.1", "every covering skeleton variant of a .py template parses", floor=300)
     r2 = report.rule("C01.2", "every template access path resolves in the typed schema environment; filters/tests/"
                               "include targets exist; macro calls match arity", floor=1000)
-    r2b = report.rule("C01.2b", "printed holes are text (no object/collection repr in emitted code)", floor=300)
+    r2b = report.rule("C01.2b", "printed holes are text (no object/collection repr in emitted code)", floor=200)
     r2c = report.rule("C01.2c", "`|first` / `|last` only on sequences an enclosing guard proves non-empty", floor=1)
     r3 = report.rule("C01.3", "literal global names read in a skeleton are bound in the same consistent variant", floor=1000)
 
